@@ -15,7 +15,9 @@
 // every write, the visibility to a second reader and the header round trip are compared with it; requests
 // outside the index ranges must throw and leave everything unchanged.
 // Extension (scale factor, bulk arithmetic, get_subset, copies from differently laid-out sources, header variants,
-// out-of-range container setters): see the block comment above run_history_ext().
+// out-of-range container setters, containers of the right size with a shifted / smaller index range given to every
+// container setter, exam information at its boundary values through both header writers): see the block comment above
+// run_ext_op() and header_exam_info_boundaries().
 // Usage: c02_projdata <seed> <quick|thorough> <opsfile> <implfile>
 #include "stir_fixtures.h"
 #include "common.h"
@@ -67,6 +69,7 @@ struct InterfileProbe : public ProjDataInterfile
 
 static bool g_sbs = true; // set by probe_bin_scale()
 static bool g_chkseg_mem = true, g_chkseg_pdfs = true; // set by probe_segment_size_check()
+static bool g_chksegt_mem = true, g_chksegt_pdfs = true; // set by probe_segment_size_check(): shifted tangential range refused?
 static FILE *g_ops, *g_out, *g_orc;
 static long g_checks = 0, g_fails = 0;
 static std::set<std::string> g_known_emitted;
@@ -498,6 +501,16 @@ do_write(Case& c, vh::Rng& rng, const std::string& op, F call, const std::vector
                   "ProjDataInMemory: heap overflow). Repro: ProjDataInMemory for 8 detectors/3 rings, span 1, max_delta 1 (segments 0,+1,-1 "
                   "with 3,2,2 axial positions); clone the ProjDataInfo, set_max_axial_pos_num(3, 0), get_empty_segment_by_sinogram(0), "
                   "fill(-7), set_segment: returns yes and get_sinogram(0, 1) is now all -7",
+                  ctx);
+          else if (oor_kind == "tangential range of the segment container" && !(c.pdm ? g_chksegt_mem : g_chksegt_pdfs))
+            known("range:set_segment-tang-range-unchecked",
+                  "ProjDataFromStream::set_segment and ProjDataInMemory::set_segment (both overloads) compare the NUMBER of tangential "
+                  "positions (and of views) of the segment they are given with the data's, not the index range: a SegmentByView/"
+                  "SegmentBySinogram whose tangential range is shifted (min+1..max+1: its last index is outside the data's range) is "
+                  "accepted (Succeeded::yes) and stored shifted by one bin (set_viewgram/set_sinogram refuse the same geometry through "
+                  "ProjDataInfo::operator!=). Repro: ProjDataInMemory for 8 detectors/3 rings, span 1, max_delta 1, 3 tangential "
+                  "positions -1..1; clone the ProjDataInfo, set_min_tangential_pos_num(0), set_max_tangential_pos_num(2), "
+                  "get_empty_segment_by_sinogram(0), seg[0][0][2] = 5, set_segment: returns yes and get_bin_value(Bin(0,0,0,1)) is 5",
                   ctx);
           else
             oracle_fail(ctx, "out-of-range (" + oor_kind + ") write request was not rejected" + (changed ? " and changed the data" : ""));
@@ -1059,6 +1072,22 @@ probe_segment_size_check()
           rejected = true;
         }
       (which == 0 ? g_chkseg_mem : g_chkseg_pdfs) = rejected;
+      // a segment container with the right NUMBER of tangential positions but a shifted range
+      shared_ptr<ProjDataInfo> sh = pdi->create_shared_clone();
+      sh->set_min_tangential_pos_num(pdi->get_min_tangential_pos_num() + 1);
+      sh->set_max_tangential_pos_num(pdi->get_max_tangential_pos_num() + 1);
+      rejected = false;
+      try
+        {
+          SegmentBySinogram<float> seg = sh->get_empty_segment_by_sinogram(0, false, 0);
+          seg.fill(1.f);
+          rejected = pd->set_segment(seg) != Succeeded::yes;
+        }
+      catch (...)
+        {
+          rejected = true;
+        }
+      (which == 0 ? g_chksegt_mem : g_chksegt_pdfs) = rejected;
     }
 }
 
@@ -1115,7 +1144,8 @@ write_cfg(Case& c)
     << c.maxSeg << " " << c.minView << " " << c.numViews << " " << c.minTang << " " << c.numTang << " " << c.minTof << " " << c.maxTof
     << " " << c.numTof << " " << (c.chkv ? 1 : 0) << " " << (c.chkt ? 1 : 0) << " " << (g_fb ? 1 : 0) << " " << type_name(c) << " "
     << (c.backing == "mem" ? "native" : (c.bo == ByteOrder::little_endian ? "little" : "big"));
-  s << " scale " << c.scale_p << " " << c.scale_q << " " << (g_sbs ? 1 : 0) << " " << ((c.pdm ? g_chkseg_mem : g_chkseg_pdfs) ? 1 : 0);
+  s << " scale " << c.scale_p << " " << c.scale_q << " " << (g_sbs ? 1 : 0) << " " << ((c.pdm ? g_chkseg_mem : g_chkseg_pdfs) ? 1 : 0)
+    << " " << ((c.pdm ? g_chksegt_mem : g_chksegt_pdfs) ? 1 : 0);
   s << " seq";
   for (int x : c.seq)
     s << " " << x;
@@ -1145,6 +1175,10 @@ write_cfg(Case& c)
 //   getvo / getso / setvo   make_num_tangential_poss_odd = true
 //   setv / sets / setss / setsv with a view / axial position / segment outside the ranges (must be rejected)
 //   setssx / setsvx         set_segment with a segment container that has one axial position too many (must be rejected)
+//   setc <setter> <seg> <view|ax> <tof> <cMinAx> <cMaxAx> <cNumViews> <cMinTang> <cMaxTang> <value> [n view seg ..]
+//        set_viewgram / set_sinogram / set_segment (both overloads) / set_related_viewgrams given a container whose OWN
+//        ProjDataInfo has the index ranges listed (right size but shifted by +-1 / +-k, or smaller): must be refused and
+//        change no byte
 //   hdr2                    write_basic_interfile_PDFS_header on a stream with non-zero offset -> ProjData::read_from_file
 // ===================================================================================================
 
@@ -1581,6 +1615,126 @@ run_ext_op(Case& c, vh::Rng& rng, int kind)
         }
       return true;
     }
+    case 9: { // container setters given a container whose OWN index range differs from the data's: right size but shifted
+              // by +-1 / +-k, or smaller -- axial, tangential, view (smaller only: no STIR API makes min_view_num != 0)
+      static const char* setters[] = { "v", "s", "ss", "sv", "rel" };
+      int st = rng.range(0, 4);
+      if (st == 4 && !c.sym)
+        st = rng.range(0, 3);
+      int dim = rng.range(0, 5) % 3; // 0 axial, 1 tangential, 2 view
+      if (dim == 2 && (st == 4 || c.numViews < 2 || rng.coin()))
+        dim = rng.range(0, 1);
+      int s = rseg();
+      const int k = rtof();
+      std::vector<ViewSegmentNumbers> pairs;
+      int idx = 0;
+      if (st == 4)
+        {
+          ViewSegmentNumbers vs(rview(), s);
+          c.sym->find_basic_view_segment_numbers(vs);
+          c.sym->get_related_view_segment_numbers(pairs, vs);
+          bool ok = !pairs.empty();
+          for (auto& pr : pairs)
+            if (pr.segment_num() < c.minSeg || pr.segment_num() > c.maxSeg || pr.view_num() < c.minView || pr.view_num() > c.maxView())
+              ok = false;
+          if (!ok)
+            return false;
+          s = pairs[0].segment_num();
+          idx = pairs[0].view_num();
+        }
+      int a0 = c.minAx[s], a1 = c.maxAxOf(s), nv = c.numViews, t0 = c.minTang, t1 = c.maxTang();
+      int mode = rng.range(0, 5); // +1, -1, +k, -k, smaller at the top, smaller at the bottom
+      const int kk = rng.range(2, 3);
+      const char* mname = "";
+      if (dim == 2)
+        {
+          nv = c.numViews - 1;
+          mname = "smaller";
+        }
+      else
+        {
+          int& lo = dim == 0 ? a0 : t0;
+          int& hi = dim == 0 ? a1 : t1;
+          if (mode >= 4 && lo == hi)
+            mode = rng.range(0, 3);
+          const int d = mode == 0 ? 1 : mode == 1 ? -1 : mode == 2 ? kk : -kk;
+          if (mode == 4)
+            --hi;
+          else if (mode == 5)
+            ++lo;
+          else
+            {
+              lo += d;
+              hi += d;
+            }
+          mname = mode >= 4 ? "smaller" : (mode <= 1 ? "shift1" : "shiftk");
+        }
+      shared_ptr<ProjDataInfo> q = c.pdi->create_shared_clone();
+      if (dim == 0)
+        {
+          q->set_min_axial_pos_num(a0, s);
+          q->set_max_axial_pos_num(a1, s);
+        }
+      else if (dim == 1)
+        {
+          q->set_min_tangential_pos_num(t0);
+          q->set_max_tangential_pos_num(t1);
+        }
+      else
+        q->set_num_views(nv);
+      if (st == 0)
+        idx = rng.range(0, nv - 1);
+      else if (st == 1)
+        idx = rng.range(a0, a1);
+      const float val = 218.f * c.unit;
+      g_hist[std::string("sub:setc-") + setters[st] + "-" + (dim == 0 ? "axial" : dim == 1 ? "tang" : "view") + "-" + mname]++;
+      op << "setc " << setters[st] << " " << s << " " << idx << " " << k << " " << a0 << " " << a1 << " " << nv << " " << t0 << " " << t1 << " "
+         << num(val);
+      if (st == 4)
+        {
+          op << " " << pairs.size();
+          for (auto& pr : pairs)
+            op << " " << pr.view_num() << " " << pr.segment_num();
+        }
+      const bool seg_tang_shift = (st == 2 || st == 3) && dim == 1 && mode < 4;
+      do_write(
+          c, rng, op.str(),
+          [&]() {
+            switch (st)
+              {
+              case 0: {
+                Viewgram<float> vg = q->get_empty_viewgram(idx, s, false, k);
+                vg.fill(val);
+                return pd.set_viewgram(vg) == Succeeded::yes;
+              }
+              case 1: {
+                Sinogram<float> sg = q->get_empty_sinogram(idx, s, false, k);
+                sg.fill(val);
+                return pd.set_sinogram(sg) == Succeeded::yes;
+              }
+              case 2: {
+                SegmentBySinogram<float> seg = q->get_empty_segment_by_sinogram(s, false, k);
+                seg.fill(val);
+                return pd.set_segment(seg) == Succeeded::yes;
+              }
+              case 3: {
+                SegmentByView<float> seg = q->get_empty_segment_by_view(s, false, k);
+                seg.fill(val);
+                return pd.set_segment(seg) == Succeeded::yes;
+              }
+              default: {
+                RelatedViewgrams<float> rv = q->get_empty_related_viewgrams(ViewgramIndices(idx, s, k), c.sym, false, k);
+                for (auto it = rv.begin(); it != rv.end(); ++it)
+                  it->fill(val);
+                return pd.set_related_viewgrams(rv) == Succeeded::yes;
+              }
+              }
+          },
+          {}, true,
+          seg_tang_shift ? std::string("tangential range of the segment container")
+                         : std::string("container index range: ") + (dim == 0 ? "axial " : dim == 1 ? "tangential " : "view ") + mname);
+      return true;
+    }
     default: { // container setters with an index outside the ranges
       const int w = rng.range(0, 3);
       const bool hi = rng.coin();
@@ -1696,7 +1850,7 @@ run_history(Case& c, vh::Rng& rng, int len)
   bool force_fill = false;
   for (int step = 0; step < len; ++step)
     {
-      int kind = rng.range(0, 39);
+      int kind = rng.range(0, 43);
       if (force_fill)
         {
           kind = 20;
@@ -1705,7 +1859,8 @@ run_history(Case& c, vh::Rng& rng, int len)
       if (kind >= 28)
         {
           // 28-31 bulk, 32 subset, 33 tomem, 34 fillsrc, 35-36 make-odd, 37-39 container setters out of range
-          static const int map[] = { 0, 1, 2, 3, 4, 5, 6, 7, 7, 8, 8, 8 };
+          // 40-43 container setters given containers with a shifted / smaller index range
+          static const int map[] = { 0, 1, 2, 3, 4, 5, 6, 7, 7, 8, 8, 8, 9, 9, 9, 9 };
           if (!run_ext_op(c, rng, map[kind - 28]))
             --step;
           continue;
@@ -2346,6 +2501,157 @@ header_exam_info_extras(const std::string& outdir)
     }
 }
 
+// EXAM INFORMATION AT ITS BOUNDARY VALUES through both header writers (ProjDataInterfile constructor and
+// write_basic_interfile_PDFS_header on a plain stream) -> ProjData::read_from_file, every field compared on its own:
+// energy window with low threshold 0, unset (-1/-1), half set, high = low; calibration factor 1 / unset / 0 / tiny;
+// originating system empty / the scanner's name; radionuclide unset / named; time frames starting at 0 / fractional;
+// every (orientation, rotation) of the patient position including unknown.
+static void
+header_exam_info_boundaries(vh::Rng& rng, const std::string& outdir, int n)
+{
+  shared_ptr<Scanner> scanner = vh::make_scanner(8, 2);
+  shared_ptr<ProjDataInfo> pdi = vh::make_pdi(scanner, 1, 1, 4, 3, false, 0);
+  const std::string pid = std::to_string(static_cast<long>(getpid()));
+  RadionuclideDB db;
+  const Radionuclide pet_default = db.get_radionuclide(ImagingModality(ImagingModality::PT), "");
+  static const float win[][2] = { { 0.f, 650.f }, { -1.f, -1.f }, { -1.f, 650.f }, { 350.f, -1.f }, { 511.f, 511.f }, { 350.f, 650.f }, { 0.f, 1.f } };
+  static const float cal[] = { 1.f, -1.f, 1e-6f, 2.5f, 0.f };
+  for (int i = 0; i < n; ++i)
+    {
+      shared_ptr<ExamInfo> exam(new ExamInfo(ImagingModality::PT));
+      const float lo = win[i % 7][0], hi = win[i % 7][1];
+      exam->set_low_energy_thres(lo);
+      exam->set_high_energy_thres(hi);
+      const float cf = cal[rng.range(0, 4)];
+      exam->set_calibration_factor(cf);
+      const int orient = (i % 24) / 6, rot = (i % 24) % 6;
+      exam->patient_position
+          = PatientPosition(static_cast<PatientPosition::OrientationValue>(orient), static_cast<PatientPosition::RotationValue>(rot));
+      const bool sys_set = rng.coin();
+      exam->originating_system = sys_set ? scanner->get_name() : std::string();
+      const int rn = rng.range(0, 2);
+      if (rn != 0)
+        {
+          Radionuclide r = db.get_radionuclide(ImagingModality(ImagingModality::PT), rn == 1 ? "^18^Fluorine" : "^11^Carbon");
+          if (r.get_half_life(false) < 0)
+            r = db.get_radionuclide(ImagingModality(ImagingModality::PT), "^18^Fluorine");
+          exam->set_radionuclide(r);
+        }
+      const int nframes = rng.range(1, 3);
+      {
+        TimeFrameDefinitions tf;
+        tf.set_num_time_frames(nframes);
+        static const double starts[] = { 0., 0., 0.5, 7. };
+        double start = starts[rng.range(0, 3)];
+        for (int f = 1; f <= nframes; ++f)
+          {
+            const double end = start + (rng.range(0, 4) == 0 ? 0.25 : static_cast<double>(rng.range(1, 900)));
+            tf.set_time_frame(f, start, end);
+            start = end + (rng.coin() ? 0 : 3);
+          }
+        exam->set_time_frame_definitions(tf);
+      }
+      const bool half_set = (lo < 0) != (hi < 0);
+      for (int which = 0; which < 2; ++which)
+        {
+          const std::string base = outdir + "/c02_" + pid + "_exb" + std::to_string(which);
+          std::string bad;
+          bool window_dropped = false;
+          try
+            {
+              shared_ptr<ProjData> keep; // the writer stays open while the pair is read back
+              shared_ptr<std::fstream> fs;
+              if (which == 0)
+                {
+                  keep.reset(new ProjDataInterfile(exam, pdi, base + ".hs", std::ios::in | std::ios::out | std::ios::trunc));
+                  keep->fill(1.f);
+                }
+              else
+                {
+                  {
+                    std::ofstream f((base + ".s").c_str(), std::ios::binary | std::ios::trunc);
+                    const std::vector<char> z(static_cast<std::size_t>(pdi->size_all()) * 4, 0);
+                    f.write(z.data(), z.size());
+                  }
+                  fs.reset(new std::fstream((base + ".s").c_str(), std::ios::in | std::ios::out | std::ios::binary));
+                  ProjDataFromStream* pf = new ProjDataFromStream(exam, pdi, fs, 0, ProjData::standard_segment_sequence(*pdi),
+                                                                  ProjDataFromStream::Segment_View_AxialPos_TangPos, NumericType::FLOAT,
+                                                                  ByteOrder::native, 1.f);
+                  keep.reset(pf);
+                  keep->fill(1.f);
+                  if (write_basic_interfile_PDFS_header(base + ".hs", base + ".s", *pf) != Succeeded::yes)
+                    bad = "header-writer-failed";
+                }
+              if (bad.empty())
+                {
+                  shared_ptr<ProjData> rb = ProjData::read_from_file(base + ".hs");
+                  const ExamInfo& e = rb->get_exam_info();
+                  const TimeFrameDefinitions& tf = exam->time_frame_definitions;
+                  bool frames_ok = e.time_frame_definitions.get_num_time_frames() == static_cast<unsigned>(nframes);
+                  for (int f = 1; frames_ok && f <= nframes; ++f)
+                    frames_ok = e.time_frame_definitions.get_start_time(f) == tf.get_start_time(f)
+                                && e.time_frame_definitions.get_end_time(f) == tf.get_end_time(f);
+                  const float ecf = e.get_calibration_factor();
+                  if (e.get_low_energy_thres() != lo || e.get_high_energy_thres() != hi)
+                    {
+                      bad = "energy-window [" + num(lo) + "," + num(hi) + "] read back as [" + num(e.get_low_energy_thres()) + ","
+                            + num(e.get_high_energy_thres()) + "]";
+                      window_dropped = half_set && e.get_low_energy_thres() < 0 && e.get_high_energy_thres() < 0;
+                    }
+                  else if (!((cf <= 0 && ecf <= 0) || (cf > 0 && std::fabs(ecf / cf - 1.) <= 1e-3)))
+                    bad = "calibration-factor " + vh::hex(cf) + " read back as " + vh::hex(ecf);
+                  else if (!(e.patient_position == exam->patient_position)
+                           || e.patient_position.get_orientation() != exam->patient_position.get_orientation()
+                           || e.patient_position.get_rotation() != exam->patient_position.get_rotation())
+                    bad = "patient-position orientation " + std::to_string(orient) + " rotation " + std::to_string(rot);
+                  else if (!frames_ok)
+                    bad = "time-frames";
+                  else if (e.originating_system != scanner->get_name()) // (an empty one is written as the scanner's name)
+                    bad = "originating-system read back as '" + e.originating_system + "'";
+                  else if (e.imaging_modality.get_modality() != ImagingModality::PT)
+                    bad = "modality";
+                  else if (rn != 0 && (!(e.get_radionuclide() == exam->get_radionuclide()) || e.get_radionuclide().get_name() != exam->get_radionuclide().get_name()))
+                    bad = "radionuclide " + exam->get_radionuclide().get_name() + " read back as " + e.get_radionuclide().get_name();
+                  else if (rn == 0 && !(e.get_radionuclide() == exam->get_radionuclide()) && !(e.get_radionuclide() == pet_default))
+                    bad = "unset radionuclide read back as " + e.get_radionuclide().get_name();
+                  else if (rn != 0 && !(e == *exam))
+                    bad = "ExamInfo::operator== is false although every field was read back";
+                  else if (!(*rb->get_proj_data_info_sptr() == *pdi))
+                    bad = "geometry";
+                  else if (rb->get_viewgram(1, 0)[1][0] != 1.f)
+                    bad = "values";
+                }
+            }
+          catch (std::exception& e)
+            {
+              bad = std::string("threw: ") + std::string(e.what()).substr(0, 100);
+            }
+          catch (...)
+            {
+              bad = "threw";
+            }
+          std::remove((base + ".hs").c_str());
+          std::remove((base + ".s").c_str());
+          ++g_checks;
+          g_hist[std::string("sub:hdrb-window-") + std::to_string(i % 7)]++;
+          emit("hdrb " + std::to_string(which) + " win " + num(lo) + " " + num(hi) + " cal " + vh::hex(cf) + " pos " + std::to_string(orient) + " " + std::to_string(rot) + " frames " + std::to_string(nframes) + " rn " + std::to_string(rn),
+               (window_dropped || bad.empty()) ? "ok" : "bad");
+          const std::string ctx = std::string(which == 0 ? "ProjDataInterfile" : "write_basic_interfile_PDFS_header") + " -> ProjData::read_from_file, case "
+                                  + std::to_string(i);
+          if (window_dropped)
+            known("header:half-set-energy-window-dropped",
+                  "write_interfile_energy_windows (src/IO/interfile.cxx; used by write_basic_interfile_PDFS_header) writes the energy window only "
+                  "when high > 0 && low >= 0, and InterfileHeader::post_processing reads it back only under the same condition: an ExamInfo "
+                  "with only ONE threshold set (low -1/high 650, or low 350/high -1) loses it (read back as [-1,-1]; ExamInfo::operator== is "
+                  "false). Repro: ExamInfo e(PT); e.set_high_energy_thres(650); ProjDataInterfile(e, pdi, \"x.hs\"); "
+                  "ProjData::read_from_file(\"x.hs\")->get_exam_info().get_high_energy_thres() is -1",
+                  ctx);
+          else if (!bad.empty())
+            oracle_fail(ctx, "exam information differs after the header round trip: " + bad);
+        }
+    }
+}
+
 int
 main(int argc, char** argv)
 {
@@ -2423,6 +2729,7 @@ main(int argc, char** argv)
         }
     }
   header_exam_info_extras(outdir);
+  header_exam_info_boundaries(rng, outdir, thorough ? 168 : 42);
   std::remove((outdir + "/c02_" + std::to_string(static_cast<long>(getpid())) + "_flushprobe.dat").c_str());
 
   std::fprintf(g_orc, "INFO cases=%d", done);
